@@ -7,7 +7,7 @@ import vlib
 from checks import common, iter_common
 
 PID = "C16"
-WANTED = {"bound_state", "bound_wrong", "bound_not_exact", "bound_not_none"}
+WANTED = {"bound_state", "bound_wrong", "bound_not_exact", "bound_not_none", "bound_range"}
 
 
 def run(tier, corrupt=0):
